@@ -66,7 +66,7 @@ Record ovf_file (V : Type) := mkFile {
   f_min : list Q;
   f_max : list Q;
   f_valuedim : option Z;               (* absent in OVF 1.0 *)
-  f_labels : option (list string);     (* tokens of valuelabels (braces removed) *)
+  f_labels : option (list string);     (* tokens of valuelabels: {..} groups or non-blank runs *)
   f_units : option (list string);      (* tokens of valueunits *)
   f_rep : repr;
   f_check : option Q;                  (* binary only *)
@@ -96,17 +96,20 @@ Fixpoint has_us (s : string) : bool :=
   match s with EmptyString => false | String c t => Ascii.eqb c us || has_us t end.
 Fixpoint after_us (s : string) : string :=
   match s with EmptyString => EmptyString | String c t => if Ascii.eqb c us then t else after_us t end.
-Fixpoint until_us (s : string) : string :=
-  match s with EmptyString => EmptyString
-  | String c t => if Ascii.eqb c us then EmptyString else String c (until_us t) end.
 Fixpoint sp_to_us (s : string) : string :=
   match s with EmptyString => EmptyString
   | String c t => String (if Ascii.eqb c sp then us else c) (sp_to_us t) end.
+Definition lbrace : ascii := "{"%char.
+Definition rbrace : ascii := "}"%char.
+Fixpoint strip_braces (s : string) : string :=
+  match s with EmptyString => EmptyString
+  | String c t => if Ascii.eqb c lbrace || Ascii.eqb c rbrace then strip_braces t
+                  else String c (strip_braces t) end.
 
-(* convert(): Magnetization_x -> x ; Total field_x -> x ; Total energy density -> Total_energy_density
-   (comp.split("_")[1] if "_" in comp else comp) *)
+(* convert(): Magnetization_x -> x ; {Total field_x} -> x ; {Total energy density} -> Total_energy_density
+   (comp.split("_", 1)[1] if "_" in comp else comp; braces removed; words joined by "_") *)
 Definition convert_label (tok : string) : string :=
-  sp_to_us (if has_us tok then until_us (after_us tok) else tok).
+  sp_to_us (strip_braces (if has_us tok then after_us tok else tok)).
 
 Definition field_label (c : string) : string := String.append "field_" c.
 
@@ -159,7 +162,7 @@ Section Codec.
   Variable wr rd : repr -> V -> V.      (* value as stored in / as read from the representation *)
 
   (* one row of the data block *)
-  Definition row_of (extend txt : bool) (ny nz nv : nat) (a : list V) (i j k : nat) : list V :=
+  Definition row_of (extend : bool) (ny nz nv : nat) (a : list V) (i j k : nat) : list V :=
     let cs := comps d ny nz nv a i j k in
     if extend then
       match cs with
@@ -175,7 +178,8 @@ Section Codec.
     let r := reg m in
     let nv := of_nvdim f in
     if negb (ndim r =? 3)%nat then Err RuntimeE else
-    let write_dim := if extend && (nv =? 1)%nat then 3%nat else nv in
+    let extend := extend && (nv =? 1)%nat in      (* only scalar fields are extended *)
+    let write_dim := if extend then 3%nat else nv in
     do labels <-
       (if (write_dim =? 1)%nat then OK ["field_x"%string]
        else if extend then OK (repeat "field_x"%string write_dim)
@@ -184,9 +188,7 @@ Section Codec.
     match dims3 m with
     | None => Err ValueE
     | Some (nx, ny, nz) =>
-        (* binary + extend_scalar reshapes to reversed(n): only possible for one component *)
-        if extend && negb (repr_eqb rp RTxt) && negb (nv =? 1)%nat then Err ValueE else
-        let payload := ovf_rows nx ny nz (row_of extend (repr_eqb rp RTxt) ny nz nv (of_vals f)) in
+        let payload := ovf_rows nx ny nz (row_of extend ny nz nv (of_vals f)) in
         OK (mkFile true (hd ""%string (units r))
                    (map2 (fun lo c => lo + c / 2) (pmin r) (cell m))
                    (n m) (cell m) (pmin r) (pmax r)
@@ -194,7 +196,7 @@ Section Codec.
                    (Some (repeat (unit_token (of_unit f)) write_dim))
                    rp (match rp with RTxt => None | _ => Some (check_value rp) end)
                    (map (wr rp) payload)
-                   (if extend then (if (nv =? 0)%nat then 2 else nv + 2)%nat else nv) true,
+                   (if extend then 3%nat else nv) true,
             if save_sub && negb (length (subs m) =? 0)%nat then Some (sidecar_of m) else None)
     end.
 
